@@ -4,3 +4,5 @@ import Grol.Trie
 import Grol.TrieSuite
 import Grol.Sanitize
 import Grol.SanitizeSuite
+import Grol.AutoSave
+import Grol.AutoSaveSuite
